@@ -897,6 +897,46 @@ def r09l(ctx):
         raise AnalysisError(f"R09l: only {n} text store(s) found in constructors")
 
 
+def r09m(ctx):
+    """A node placed next to an element gets the cut text around it.
+
+    The inserters place the new element by cutting the text node that holds the position: the part before stays (as text or tail), the new
+    element follows, the part after becomes its tail.  lxml's `addnext` places a node after an *element and its tail*; used for a position
+    inside a tail it is correct only together with the two stores that follow it in `_insert`: the owner's tail becomes the text before the
+    cut, the new element's tail the text after.  A shortcut that calls addnext alone leaves the whole tail in front of the mark.  Rule: in the
+    text modules every `X.addnext(N)` / `X.addprevious(N)` is followed, in the same block, by a store to `X.tail` and a store to the tail of
+    the inserted element.
+    """
+    from ..core import enclosing_stmt, parent as _parent
+    repo = ctx.repo
+    ctx.rule("R09m", "a node placed with lxml's addnext is given the cut text: the owner's tail and the new element's tail are both rewritten after it", floor=1)
+    n = 0
+    for f in repo.all_funcs():
+        if not f.file.endswith(("/element.py", "/paragraph.py", "/paragraph_base.py")):
+            continue
+        for c in [c for c in walk_no_nested(f.node) if isinstance(c, ast.Call) and isinstance(c.func, ast.Attribute) and c.func.attr in ("addnext", "addprevious")]:
+            n += 1
+            st = enclosing_stmt(c)
+            blk = None
+            par = _parent(st)
+            for fld in ("body", "orelse", "finalbody"):
+                b = getattr(par, fld, None)
+                if isinstance(b, list) and st in b:
+                    blk = b
+            later = blk[blk.index(st) + 1:] if blk else []
+            tails = [a for a in later if isinstance(a, ast.Assign) and any(isinstance(t, ast.Attribute) and t.attr == "tail" for t in a.targets)]
+            owner = isinstance(c.func.value, ast.Name) and any(isinstance(t, ast.Attribute) and t.attr == "tail" and isinstance(t.value, ast.Name) and t.value.id == c.func.value.id
+                                                              for a in tails for t in a.targets)
+            ok = owner and len(tails) >= 2
+            ctx.instance("R09m", f"{f.file}:{f.ident}", f"{norm(c, 40)}: both tails rewritten after it", ok=ok, nontrivial=True, line=c.lineno)
+            if not ok:
+                ctx.report("R09m", f, c, norm(c, 40),
+                           f"{f.ident} places a node with `{c.func.attr}` and does not rewrite the tails after it: lxml puts the node after the element *and its tail*, so a mark asked for at a "
+                           f"position inside that tail (before a word that starts it) lands after the whole tail")
+    if n < 1:
+        raise AnalysisError("R09m: no addnext site found in the text modules")
+
+
 def run(ctx):
     r09a(ctx)
     r09b(ctx)
@@ -910,6 +950,7 @@ def run(ctx):
     r09j(ctx)
     r09k(ctx)
     r09l(ctx)
+    r09m(ctx)
     # strip_tags and the span builders re-attach every text piece through Element.append: a substitution there that touches more than U+0020 rewrites text
     # that lies outside the markup being inserted or removed (part of a rule shared with C16)
     from .c16 import r16i
@@ -922,6 +963,8 @@ from ..selftest import Seed, unparse_seed  # noqa: E402
 _P = "src/odfdo/paragraph.py"
 _EL = "src/odfdo/element.py"
 SEEDS = [
+    Seed("_insert takes a shortcut through addnext when the match opens the tail", "fault", _EL,
+         "        if text.is_text:  # type: ignore\n            parent.text = text_before", "        if before is not None and pos == 0 and not text.is_text:  # type: ignore\n            parent.addnext(xelement)\n        elif text.is_text:  # type: ignore\n            parent.text = text_before", "R09m"),
     Seed("Link() trims its label", "fault", "src/odfdo/link.py", "            self.text = text\n", "            self.text = text.strip()\n", "R09l"),
     Seed("remove_spans hands the bare tag name to strip_tags", "fault", _P,
          "        strip = (Span._tag,)\n        if keep_heading:", "        strip = Span._tag\n        if keep_heading:", "R09k"),
